@@ -282,6 +282,41 @@ fn run_within_any(limit: u32, opcode: u8, split: u8) -> Result<Option<(String, S
     Ok(None)
 }
 
+/// Small requests of every opcode on a key that already holds an item - short text, a 21- and a
+/// 40-character zero-padded number, 30 bytes of text, a value of half the limit: whatever the
+/// command answers, it is never 'too large' (the request is tiny and the result stays within the
+/// limit).
+fn run_small_on_stored(limit: u32, opcode: u8, stored: &[u8]) -> Result<Option<(String, String)>, String> {
+    let c = Case { limit, body_len: 0, opcode, position: 0, b: 0, pregrown: false, shape: 0 };
+    let mut r = oversized_req(&c);
+    r.value = if matches!(opcode, op::SET | op::SETQ | op::ADD | op::ADDQ | op::REPLACE | op::REPLACEQ | op::APPEND | op::APPENDQ | op::PREPEND | op::PREPENDQ) { b"tiny".to_vec() } else { vec![] };
+    let key = r.key.clone();
+    if key.is_empty() {
+        return Ok(None);
+    }
+    let w = net::NetWorld::new(NetCfg { item_limit: limit, ..Default::default() })?;
+    let mut cl = w.connect()?;
+    cl.step(&w, &Req::store(op::SET, &key, stored, 5, 0, 0).opaque(1).bytes())?;
+    cl.got.clear();
+    let _ = cl.step(&w, &r.bytes());
+    let _ = cl.step(&w, &Req::bare(op::NOOP).opaque(2).bytes());
+    let (resps, _) = wire::split_responses(&cl.got);
+    if let Some(bad) = resps.iter().find(|x| x.status == st::TOO_LARGE) {
+        return Ok(Some((
+            "within-limit-refused|small-request-on-stored-item".to_string(),
+            format!(
+                "limit={} op={} on a key holding {} bytes ({}): answered {} - a request within the limit must never be refused for size",
+                limit,
+                wire::op_name(opcode),
+                stored.len(),
+                wire::show(&stored[..stored.len().min(24)]),
+                bad.short()
+            ),
+        )));
+    }
+    Ok(None)
+}
+
 /// Two clients discard oversized bodies at the same time: A has sent its header and part of the
 /// body and pauses; B sends a whole oversized request (header first, body later) and a follower
 /// and must be answered while A is still in the middle of its body; then A finishes.
@@ -490,6 +525,32 @@ pub fn check(tier: Tier, threads: usize) -> CheckOutcome {
                 });
             }
             Ok(None) => {}
+        }
+    }
+    // small requests of every opcode on keys that already hold something
+    {
+        let stored: Vec<Vec<u8>> = vec![b"5".to_vec(), b"000000000000000000041".to_vec(), vec![b'0'; 40], b"thirty bytes of plain text....".to_vec(), vec![b'h'; 500]];
+        let mut sc: Vec<(u32, u8, usize)> = vec![];
+        for o in 0u8..=0x24 {
+            for (i, _) in stored.iter().enumerate() {
+                sc.push((1024, o, i));
+            }
+        }
+        let sres = par_map(&sc, threads, |_, (l, o, i)| run_small_on_stored(*l, *o, &stored[*i]));
+        for ((l, o, i), r) in sc.iter().zip(sres.iter()) {
+            chunks += 3;
+            match r {
+                Err(e) => mach = Some(format!("small request op {:#x} on stored item: {}", o, e)),
+                Ok(Some((sig, what))) => {
+                    failing += 1;
+                    found.entry(sig.clone()).or_insert(Violation {
+                        signature: sig.clone(),
+                        what: what.clone(),
+                        replay: json!({"engine": "c13-small-on-stored", "limit": l, "opcode": o, "stored": i}),
+                    });
+                }
+                Ok(None) => {}
+            }
         }
     }
     let wres = par_map(&within, threads, |_, (l, o, sp)| run_within_any(*l, *o, *sp));
